@@ -254,6 +254,17 @@ def dry_writer_setuppy(variant: int, declared: bool, two_deps: bool) -> bool:
     return _dry_writer(3, variant, declared, two_deps)
 
 
+def dry_apply_codemods_dependencies(declared: bool, two: bool) -> bool:
+    """apply_codemods with a dependency-adding codemod, dry vs real (real DependencyManager / RequirementsTxtWriter over
+    an in-memory manifest): the dry run leaves the manifest alone and reports the same manifest changeset and the same
+    dependency-update outcome (which drives the description's notice) as the real run.
+    post: _
+    """
+    from harness import c09
+
+    return fin(c09._dry_vs_real_dependencies(declared, two))
+
+
 class _RepoMgr:
     def __init__(self, stores):
         self.package_stores = stores
@@ -391,6 +402,7 @@ SPEC = {
         Xh("dry_writer_setupcfg", 150, 300),
         Xh("dry_writer_pyproject", 150, 300),
         Xh("dry_writer_setuppy", 150, 300),
+        Xh("dry_apply_codemods_dependencies", 100, 200),
         Xh("dry_process_dependencies", 150, 300),
         Xh("planted_dry_write", 60, 120, twin=False, expect="refuted"),
     ],
